@@ -34,6 +34,9 @@ Proof. induction fs as [|f r IH]; [reflexivity|]. destruct f; simpl; auto. discr
 Lemma value_norm tok : is_value_tok tok = true -> norm_atom (ref_def tok) = ref_def tok.
 Proof. intros Hv. destruct (value_tok_facts tok Hv) as (sec & _ & _ & _ & _ & _ & Hn & _). exact Hn. Qed.
 
+Lemma first_group_kind_kinds fs : first_group_kind fs = hd_error (group_kinds fs).
+Proof. induction fs as [|f r IH]; [reflexivity|]. destruct f; simpl; auto. Qed.
+
 Definition ms_frames (ms : spine_state) : list frame := fst ms.
 
 Lemma run_opexpr ntoks : forall toks i st after sp depth ms prev,
@@ -73,7 +76,7 @@ Proof.
         rewrite Hit. split; [reflexivity|]. split.
         -- cbn [app spine_run spine_step next_index]. change (ref_rank D_List) with (Some 220%N). cbn iota.
            rewrite Hpop. cbn [spine_run spine_step next_index]. rewrite <- Hsr, L1. reflexivity.
-        -- constructor; [simpl; exists 220%N; split; [reflexivity|reflexivity]|].
+        -- constructor; [simpl; exists 220%N; split; [reflexivity|split; [reflexivity|intros _; reflexivity]]|].
            constructor; [exact (value_norm tok Hv)|exact Hrk].
       * (* where an operand is expected *)
         destruct ms as [fs [t|]]; simpl in R; [contradiction|]. cbn [ms_frames fst] in Hdepth.
@@ -89,24 +92,49 @@ Proof.
         -- cbn [app spine_run spine_step next_index]. rewrite <- Hsr, L1. reflexivity.
         -- constructor; [exact (value_norm tok Hv)|exact Hrk].
     + (* binary *)
-      apply andb_true_iff in Hop. destruct Hop as [-> Hop].
+      apply andb_true_iff in Hop. destruct Hop as [Hop0 Hop]. apply andb_true_iff in Hop0. destruct Hop0 as [-> Hsepok].
+      apply negb_true_iff in Hsepok.
       assert (Hb : is_binary_tok tok = true) by (unfold is_binary_tok; rewrite Ek; reflexivity).
       destruct ms as [fs [t|]]; simpl in R; [|contradiction]. cbn [ms_frames fst] in Hdepth.
       pose proof (opexpr_nonempty _ _ _ Hop) as Hne.
       assert (Hi1 : i + 1 < ntoks) by (destruct r; [congruence|simpl in Hi; lia]).
-      destruct (gstep_binary ntoks i tok st fs t sp R Hb Hi1) as (st1 & fs1 & t1 & Hpop & Hs & G1 & L1).
-      destruct (IH (S i) st1 false false depth (_, None) (Some KBinary) Hop G1 eq_refl
-                   ltac:(cbn [ms_frames fst group_kinds]; rewrite (pop_group_kinds _ _ _ _ _ Hpop); exact Hdepth) ltac:(lia))
-        as (st' & fs' & t' & its & Hr & G' & Hng & Hit & Hsr & Hrk).
-      exists st', fs', t'. eexists. split; [rewrite Hs; cbn [bind]; exact Hr|]. split; [exact G'|]. split; [exact Hng|].
       assert (Hlead : match prev with
                       | Some p => if sp && ends_value_k p && starts_value_k KBinary then [IBinary D_List None] else []
                       | None => [] end = []).
       { destruct prev as [p|]; [|reflexivity]. cbn [starts_value_k]. rewrite andb_false_r. reflexivity. }
-      rewrite Hlead, Hit. split; [reflexivity|].
-      destruct (binary_tok_facts tok Hb) as (sec & my & p & BF). split.
-      * cbn [app spine_run spine_step next_index]. rewrite (bf_rank _ _ _ _ BF), Hpop. rewrite <- Hsr, L1. reflexivity.
-      * constructor; [|exact Hrk]. simpl. exists p. split; [exact (bf_rank _ _ _ _ BF)|exact (bf_inf _ _ _ _ BF)].
+      destruct (sep_tok tok) eqn:Esep.
+      * (* the separator, not directly inside round brackets *)
+        pose proof (sep_tok_is tok Esep) as ->. cbn [andb] in Hsepok.
+        assert (Hkind : first_group_kind fs <> Some BRound).
+        { rewrite first_group_kind_kinds, Hdepth. destruct depth as [|[|] d]; try discriminate; discriminate Hsepok. }
+        destruct (gstep_sep ntoks i st fs t sp R Hkind Hi1) as (st1 & fs1 & t1 & Hpop & Hs & G1 & L1).
+        destruct (IH (S i) st1 false false depth (_, None) (Some KBinary) Hop G1 eq_refl
+                     ltac:(cbn [ms_frames fst group_kinds]; rewrite (pop_group_kinds _ _ _ _ _ Hpop); exact Hdepth) ltac:(lia))
+          as (st' & fs' & t' & its & Hr & G' & Hng & Hit & Hsr & Hrk).
+        exists st', fs', t'. eexists. split; [rewrite Hs; cbn [bind]; exact Hr|]. split; [exact G'|]. split; [exact Hng|].
+        cbn [ref_kind] in Hlead |- *. rewrite Hlead, Hit. split; [reflexivity|]. split.
+        -- cbn [app spine_run spine_step next_index ref_def]. change (ref_rank D_ExpressionSeparator) with (Some 990%N). cbn iota.
+           rewrite Hpop.
+           assert (Hsb : sep_blocked D_ExpressionSeparator fs1 = false).
+           { unfold sep_blocked. cbn [is_sep_def andb]. destruct (top_round fs1) eqn:Et; [|reflexivity]. exfalso. apply Hkind.
+             rewrite <- (pop_first_group_kind _ _ _ _ _ Hpop). destruct fs1 as [|[| |[|] ? ?] ?]; try discriminate Et. reflexivity. }
+           rewrite Hsb. rewrite <- Hsr, L1. reflexivity.
+        -- constructor; [|exact Hrk]. simpl. exists 990%N. split; [reflexivity|]. split; [reflexivity|discriminate].
+      * (* an ordinary binary operator *)
+        destruct (gstep_binary ntoks i tok st fs t sp R Hb Esep Hi1) as (st1 & fs1 & t1 & Hpop & Hs & G1 & L1).
+        destruct (IH (S i) st1 false false depth (_, None) (Some KBinary) Hop G1 eq_refl
+                     ltac:(cbn [ms_frames fst group_kinds]; rewrite (pop_group_kinds _ _ _ _ _ Hpop); exact Hdepth) ltac:(lia))
+          as (st' & fs' & t' & its & Hr & G' & Hng & Hit & Hsr & Hrk).
+        exists st', fs', t'. eexists. split; [rewrite Hs; cbn [bind]; exact Hr|]. split; [exact G'|]. split; [exact Hng|].
+        rewrite Hlead, Hit. split; [reflexivity|].
+        destruct (binary_tok_facts tok Hb Esep) as (sec & my & p & BF).
+        assert (Hnsd : is_sep_def (ref_def tok) = false).
+        { unfold sep_tok in Esep. rewrite Ek in Esep. exact Esep. }
+        split.
+        -- cbn [app spine_run spine_step next_index]. rewrite (bf_rank _ _ _ _ BF), Hpop.
+           unfold sep_blocked. rewrite Hnsd. cbn [andb]. rewrite <- Hsr, L1. reflexivity.
+        -- constructor; [|exact Hrk]. simpl. exists p. split; [exact (bf_rank _ _ _ _ BF)|].
+           split; [exact (bf_inf _ _ _ _ BF)|intros _; exact (bf_rl _ _ _ _ BF)].
     + (* prefix *)
       apply andb_true_iff in Hop. destruct Hop as [Hallow Hop].
       assert (Hp : is_prefix_tok tok = true) by (unfold is_prefix_tok; rewrite Ek; reflexivity).
@@ -125,7 +153,7 @@ Proof.
         rewrite Hit. split; [reflexivity|]. split.
         -- cbn [app spine_run spine_step next_index]. change (ref_rank D_List) with (Some 220%N). cbn iota.
            rewrite Hpop. cbn [spine_run spine_step next_index]. rewrite Hrank. rewrite <- Hsr, L1. reflexivity.
-        -- constructor; [simpl; exists 220%N; split; [reflexivity|reflexivity]|].
+        -- constructor; [simpl; exists 220%N; split; [reflexivity|split; [reflexivity|intros _; reflexivity]]|].
            constructor; [simpl; exists p; split; assumption|exact Hrk].
       * destruct ms as [fs [t|]]; simpl in R; [contradiction|]. cbn [ms_frames fst] in Hdepth.
         destruct (gstep_prefix ntoks i tok st fs sp R Hp Hi1) as (st1 & Hs & G1 & L1).
@@ -153,9 +181,9 @@ Proof.
                       | None => [] end = []).
       { destruct prev as [p|]; [|reflexivity]. cbn [starts_value_k]. rewrite andb_false_r. reflexivity. }
       rewrite Hlead, Hit. split; [reflexivity|].
-      destruct (suffix_tok_facts tok Hsf) as (_ & _ & _ & _ & my & p & OF). split.
+      destruct (suffix_tok_facts tok Hsf) as (_ & _ & _ & _ & my & p & OF & Hrl). split.
       * cbn [app spine_run spine_step next_index]. rewrite (of_rank _ _ _ _ OF), Hpop. rewrite <- Hsr, L1. reflexivity.
-      * constructor; [|exact Hrk]. simpl. exists p. split; [exact (of_rank _ _ _ _ OF)|exact (of_inf _ _ _ _ OF)].
+      * constructor; [|exact Hrk]. simpl. exists p. split; [exact (of_rank _ _ _ _ OF)|exact Hrl].
     + (* opening bracket *)
       apply andb_true_iff in Hop. destruct Hop as [Hallow Hop].
       pose proof (open_is_open_tok tok b Ek) as ->.
@@ -173,7 +201,7 @@ Proof.
         rewrite Hit. split; [reflexivity|]. split.
         -- cbn [app spine_run spine_step next_index]. change (ref_rank D_List) with (Some 220%N). cbn iota.
            rewrite Hpop. cbn [spine_run spine_step next_index]. rewrite <- Hsr, L1. reflexivity.
-        -- constructor; [simpl; exists 220%N; split; [reflexivity|reflexivity]|].
+        -- constructor; [simpl; exists 220%N; split; [reflexivity|split; [reflexivity|intros _; reflexivity]]|].
            constructor; [exact I|exact Hrk].
       * destruct ms as [fs [t|]]; simpl in R; [contradiction|]. cbn [ms_frames fst] in Hdepth.
         destruct (gstep_open ntoks i st fs sp b R Hi1) as (st1 & Hs & G1 & L1).
@@ -329,7 +357,7 @@ Proof.
     apply andb_true_iff in H. destruct H as [H1 H2]. simpl in Hn.
     unfold is_binary_tok in H1. unfold is_value_tok in H2.
     cbn [opexpr_from]. destruct (ref_kind o); try discriminate. destruct (ref_kind v); try discriminate.
-    cbn [andb negb orb]. apply IH; [lia|exact H3].
+    rewrite andb_false_r. cbn [andb negb orb]. apply IH; [lia|exact H3].
 Qed.
 
 Lemma binary_chain_opexpr toks : binary_chain toks = true -> operator_expression toks = true.
